@@ -88,7 +88,12 @@ type RunCfg struct {
 	Stalls []StallSpec
 	// Overrides is the content of the --overrides file: partially qualified node
 	// name -> {"force_volatile": bool, "chunk.threads": x, ...}
-	Overrides      map[string]map[string]interface{}
+	Overrides map[string]map[string]interface{}
+	// LinkedRoot: the pipestance is reached through a symlinked parent directory
+	// (<root>/lnk -> vol); CanonicalPaths: stages may report the physical path
+	// (pwd -P) of their output files
+	LinkedRoot     bool
+	CanonicalPaths bool
 	AllSlow        bool   // every job computes for ten simulated minutes
 	MarkSuperseded bool   // an attempt that finds itself replaced produces recognisably different outputs
 	OutKinds       bool   // a file-typed output may be missing, a symlink, or a path outside the pipestance (C13)
@@ -109,6 +114,7 @@ type Run struct {
 	FCfg          *FCfg
 	Root          string
 	PsDir         string
+	RealPs        string // the pipestance directory with symlinks resolved, if that is another name
 	MroDir        string
 	Inc           int
 	Mrp           *vrt.Proc
@@ -161,6 +167,7 @@ type FileRec struct {
 	InDir   string // the directory-valued output this file belongs to
 	Logical string // the path the stage reported, when it differs (through a symlinked directory)
 	Tmp     bool   // in the job's temporary directory
+	Canonical bool   // the stage reported the physical path (symlinked parent resolved)
 	Kind    string // "" regular file; "missing" (named, never created); "symlink"; "outside" (a path outside the pipestance)
 	Target  string // for symlinks: the file finally pointed at
 }
@@ -235,6 +242,7 @@ func (r *Run) chunkResources(j *JobRec, i int) (float64, float64) {
 
 // fileRec finds the record of a file by its real or its reported path.
 func (r *Run) fileRec(p string) *FileRec {
+	p = r.given(p)
 	if rec := r.Files[p]; rec != nil {
 		return rec
 	}
@@ -276,11 +284,57 @@ func (r *Run) extraFiles(j *JobRec, args map[string]interface{}) {
 	}
 }
 
+// abs turns the path of a disk event (relative to the root the disk seam reports
+// against) into an absolute one.
+func (r *Run) abs(rel string) string {
+	if strings.HasPrefix(rel, "/") {
+		return rel
+	}
+	if r.Cfg.LinkedRoot {
+		return path.Join(r.Root, "lnk", rel)
+	}
+	return path.Join(r.Root, rel)
+}
+
+// given maps the physical name of something inside the pipestance (symlinked parent
+// resolved) to the name under which the pipestance was given to mrp.
+func (r *Run) given(x string) string {
+	if r.RealPs != "" && (x == r.RealPs || strings.HasPrefix(x, r.RealPs+"/")) {
+		return r.PsDir + x[len(r.RealPs):]
+	}
+	return x
+}
+
+// givenVal applies given to every string of a value.
+func (r *Run) givenVal(v interface{}) interface{} {
+	if r.RealPs == "" {
+		return v
+	}
+	switch x := v.(type) {
+	case string:
+		return r.given(x)
+	case []interface{}:
+		out := make([]interface{}, len(x))
+		for i := range x {
+			out[i] = r.givenVal(x[i])
+		}
+		return out
+	case map[string]interface{}:
+		out := make(map[string]interface{}, len(x))
+		for k, e := range x {
+			out[k] = r.givenVal(e)
+		}
+		return out
+	}
+	return v
+}
+
 // normFiles replaces every absolute path inside the pipestance by a token made of
 // the content of the file it names, so that F does not depend on directory names.
 func (r *Run) normFiles(v interface{}) interface{} {
 	switch x := v.(type) {
 	case string:
+		x = r.given(x)
 		if strings.HasPrefix(x, r.PsDir+"/") {
 			if st, err := os.Stat(x); err == nil && st.IsDir() {
 				return dirToken(x)
@@ -332,6 +386,7 @@ func dirToken(dir string) string {
 func (r *Run) checkArgFiles(j *JobRec, v interface{}) {
 	switch x := v.(type) {
 	case string:
+		x = r.given(x)
 		if kids, isDir := r.Dirs[x]; isDir {
 			// a directory-valued argument: every file written below it
 			for _, k := range kids {
@@ -424,6 +479,10 @@ func NewRun(cfg *RunCfg) *Run {
 	r := &Run{Cfg: cfg, Prog: cfg.Prog, FCfg: cfg.FCfg, Root: cfg.Root,
 		Probes: map[string]int{}, Faults: map[string]int{}, Files: map[string]*FileRec{}, Logical: map[string]string{}, Dirs: map[string][]string{}, ExtFiles: map[string]string{}}
 	r.PsDir = path.Join(cfg.Root, "ps")
+	if cfg.LinkedRoot {
+		r.PsDir = path.Join(cfg.Root, "lnk", "ps")
+		r.RealPs = path.Join(cfg.Root, "vol", "ps")
+	}
 	r.MroDir = path.Join(cfg.Root, "mro")
 	return r
 }
@@ -457,6 +516,9 @@ func (r *Run) mrpArgs() []string {
 	args := []string{"mrp", path.Join(r.MroDir, "pipeline.mro"), "ps",
 		"--psdir=" + r.PsDir, "--disable-ui", "--jobmode=" + jm}
 	args = append(args, r.Cfg.Flags...)
+	if os.Getenv("VERIF_MRP_DEBUG") != "" {
+		args = append(args, "--debug")
+	}
 	if len(r.Cfg.Overrides) > 0 {
 		args = append(args, "--overrides="+path.Join(r.MroDir, "overrides.json"))
 	}
@@ -619,15 +681,27 @@ func (r *Run) Execute() {
 	os.RemoveAll(r.PsDir)
 	os.RemoveAll(r.MroDir)
 	os.RemoveAll(path.Join(r.Root, "ext"))
-	os.RemoveAll(r.PsDir + "_archive")
+	os.RemoveAll(path.Join(r.Root, "ps_archive"))
+	os.RemoveAll(path.Join(r.Root, "vol"))
+	os.Remove(path.Join(r.Root, "lnk"))
+	os.RemoveAll(path.Join(r.Root, "ps"))
+	vosRoot := r.Root
+	if cfg.LinkedRoot {
+		os.MkdirAll(path.Join(r.Root, "vol"), 0755)
+		os.Symlink("vol", path.Join(r.Root, "lnk"))
+		vosRoot = path.Join(r.Root, "lnk")
+	}
 	if err := r.writeProgram(r.Prog); err != nil {
 		r.violate("SIM", "setup", err.Error())
 		return
 	}
 	vrt.Reset()
 	vrt.S.MapMode, vrt.S.MapSalt = cfg.MapMode, cfg.MapSalt
-	vos.Reset(r.Root)
+	vos.Reset(vosRoot)
 	vos.W.AllowOutside = []string{"/dev/null"}
+	if cfg.LinkedRoot {
+		vos.W.AllowOutside = append(vos.W.AllowOutside, r.Root+"/")
+	}
 	vos.ResetWeather()
 	vproc.Reset(4100)
 	vproc.T.Launch = r.launch
